@@ -104,6 +104,27 @@ def bounded_pipelines(tier, seed):
                 seen.add(seq)
                 if len(failures) < 3:
                     failures.append({'key': 'pipeline', 'input': list(seq), 'observed': repr(got)[:150], 'expected': repr(exp)[:150], 'replay_code': None})
+    # every argument shape of slice / limit (None in any position) against islice with the very same arguments
+    for args in [(3,), (None,), (0,), (2, None), (0, None), (None, 4), (2, 6), (None, None), (1, None, 2), (None, None, 3), (None, 7, 2), (1, 8, 3), (0, None, None),
+                 (2, None, None), (None, None, None), (None, 5, None)]:
+        cases += 1
+        try:
+            got = list(glom(list(range(10)), Iter().slice(*args)))
+            exp = list(islice(range(10), *args))
+        except Exception as e:
+            got, exp = repr(e), 'no error'
+        if got != exp:
+            failures.append({'key': 'pipeline', 'input': 'slice%r' % (args,), 'observed': repr(got)[:150], 'expected': repr(exp)[:150], 'replay_code': None})
+    # a spec object is a description, not a run: applying the same spec again (to another target) starts every stage afresh
+    for name in sorted(stages):
+        cases += 1
+        spec = stages[name][0](Iter())
+        first = list(glom([1, 2, 1, 3, 7, 9], spec))
+        second = list(glom([3, 1, 4, 1, 5, 9, 2, 6], spec))
+        exp = list(stages[name][1](iter([3, 1, 4, 1, 5, 9, 2, 6])))
+        if second != exp:
+            failures.append({'key': 'pipeline', 'input': 'second application of the same %s spec' % name, 'observed': repr(second)[:150], 'expected': repr(exp)[:150],
+                             'replay_code': None})
     # flatten / split on nested data
     for spec, refv in ((Iter().flatten(), lambda: list(chain.from_iterable([[1, 2], [3], []]))), (Iter().split(0), lambda: list(split_iter([1, 0, 2, 3, 0], 0)))):
         cases += 1
